@@ -57,6 +57,14 @@ def main():
                     # the printing form of the converters (what the command line does); the text is what reached stdout
                     (ampgen2goofit if entry == "cpp_print" else ampgen2goofitpy)(path)
                     r = {"text": buf.getvalue()}
+                elif entry in ("read_cpp_text", "read_py_text"):
+                    # the same reader given the text instead of the file name (the step-wise use of the notebooks)
+                    cls_ = GooFitChain if entry == "read_cpp_text" else GooFitPyChain
+                    with open(path, encoding="utf-8") as fh:
+                        txt = fh.read()
+                    lines, states = cls_.read_ampgen(text=txt)
+                    r = {"read2": [[str(ln), repr(ln.amp)] for ln in lines], "states": [str(s) for s in states],
+                         "intro": cls_.make_intro(states), "pars": cls_.make_pars()}
                 elif entry == "read_cpp":
                     lines, states = GooFitChain.read_ampgen(path)
                     r = {"read2": [[str(ln), repr(ln.amp)] for ln in lines], "states": [str(s) for s in states],
